@@ -229,6 +229,11 @@ def build_cases(tier, seed):
     for dims in [(2, 2)] + ([(2, 3)] if tier == 'thorough' else []):
         for pair in CHA_PAIRS[tier][:None if dims == (2, 2) else 1]:
             cases.append({'kind': 'cha_hist', 'dims': list(dims), 'pair': list(pair)})
+    for dims in [(2, 2), (2, 3)]:
+        cases.append({'kind': 'model_hist', 'dims': list(dims), 'model': 'cha'})
+        for k in (2, 3):
+            cases.append({'kind': 'model_hist', 'dims': list(dims), 'model': 'pureb', 'k': k})
+    info['model_mode_histories'] = 'all setter sequences of length 2..3 over {set_dm_target(T), set_dm_target(1/N), set_expectation_op(generic), set_expectation_op(diagonal)} on one object, 3 lattice points, against a fresh object with the last setter only'
     info['feasibility_probe_plan'] = probe_plan.__doc__.split('sub-grid [positions in the case, variant rule]:')[1].strip()
     info['cha_history_pairs'] = {'(2,2)': CHA_PAIRS[tier], '(2,3)': CHA_PAIRS[tier][:1] if tier == 'thorough' else []}
     info['return_info_directions_per_case'] = '2, every 2nd case' if tier == 'quick' else 'all'
@@ -641,6 +646,74 @@ def _cha_history(case, out, env, E, cvxpy, dims):
     out.sample = {'kind': 'cha_hist', 'dims': list(dims), 'pair': case['pair'], 'configurations': len(res)}
 
 
+def _model_history(case, out, env, E, dims):
+    """mode histories on ONE inner-model object: the loss after any sequence of set_dm_target (T) / set_expectation_op (E) calls must be
+    the loss of a fresh object that only received the last call (the boundary / numerical-range drivers re-use one object this way)"""
+    import torch
+    from checks.c01_manifold import theta_lattice
+    dA, dB = dims
+    N = dA * dB
+    rng = env.rng('C06', 'model_hist', dims, case['model'])
+    psi = rng.normal(size=N) + 1j * rng.normal(size=N)
+    psi /= np.linalg.norm(psi)
+    targets = {'T': 0.6 * np.eye(N) / N + 0.4 * np.outer(psi, psi.conj()), 't': np.eye(N) / N}
+    h0 = rng.normal(size=(N, N)) + 1j * rng.normal(size=(N, N))
+    ops = {'E': h0 + h0.conj().T, 'e': np.diag(np.arange(N, dtype=np.float64)).astype(np.complex128)}
+
+    def make():
+        if case['model'] == 'pureb':
+            return E.PureBosonicExt(dA, dB, case['k'], distance_kind='gellmann')
+        return E.AutodiffCHAREE(dims, distance_kind='gellmann')
+
+    def apply(m, letter):
+        if letter in targets:
+            m.set_dm_target(targets[letter])
+        else:
+            m.set_expectation_op(ops[letter])
+
+    def loss_at(m, row):
+        params = list(m.parameters())
+        off = 0
+        with torch.no_grad():
+            for p_ in params:
+                p_.copy_(torch.tensor(row[off:off + p_.numel()].reshape(p_.shape), dtype=p_.dtype))
+                off += p_.numel()
+            with np.errstate(all='ignore'):
+                return float(m())
+    m0 = make()
+    n = sum(p_.numel() for p_ in m0.parameters())
+    rows = [r for r in theta_lattice(n, 2.0, rng, 2) if np.abs(r).max() > 0][:3]
+    hists = [''.join(h) for L in (1, 2, 3) for h in itertools.product('TtEe', repeat=L)]
+    fresh = {}
+    for ri, row in enumerate(rows):
+        for letter in 'TtEe':
+            m = make()
+            apply(m, letter)
+            fresh[(ri, letter)] = loss_at(m, row)
+    nbad = 0
+    for h in hists:
+        if len(h) == 1:
+            continue
+        m = make()
+        for letter in h:
+            apply(m, letter)
+        for ri, row in enumerate(rows):
+            out.state()
+            out.trans()
+            got, want = loss_at(m, row), fresh[(ri, h[-1])]
+            out.outcome((case['model'], dims, h[-1], ri, round(want, 8) if np.isfinite(want) else None), nontrivial=True)
+            if not np.isfinite(want):
+                out.count('outside_math_domain')
+                continue
+            if not (abs(got - want) <= 1e-12 * (1 + abs(want))) and nbad < 6:
+                nbad += 1
+                out.violation('%s/mode_history/loss_depends_on_earlier_mode' % type(m).__name__,
+                              '%s after the setter history %s has loss %.12g at a lattice point; a fresh object with only the last setter has %.12g (T/t = set_dm_target, E/e = set_expectation_op)'
+                              % (type(m).__name__, h, got, want), dims=dims, history=h, theta=row)
+        out.trace()
+    out.sample = {'kind': 'model_hist', 'model': case['model'], 'dims': list(dims), 'histories': len(hists), 'points': len(rows)}
+
+
 def run_case(case, out, env):
     import numqi
     import cvxpy
@@ -839,6 +912,8 @@ def run_case(case, out, env):
         out.sample = {'kind': 'order', 'dims': list(dims), 'directions': [d[0] for d in sel], 'variants': [list(v) for v in sorted(betas)]}
     elif kind == 'cha_hist':
         _cha_history(case, out, env, E, cvxpy, dims)
+    elif kind == 'model_hist':
+        _model_history(case, out, env, E, dims)
     elif kind in ('inner_cha', 'inner_pureb', 'inner_symext'):
         import torch
         from checks.c01_manifold import theta_lattice
